@@ -402,6 +402,39 @@ class Unpack(Family):
             env.cleanup()
 
 
+class DataHome(Family):
+    name = "data-home-follows-the-environment"
+    doc = "the cache lives under the directory TRAFFIC_WEAVER_DATA names AT THE TIME OF THE CALL (two homes in one process)"
+    differential = False
+
+    def configs(self, tier):
+        return [{"first": f} for f in ("unset", "A")]
+
+    def run(self, ctx, inst, first):
+        if not ctx.symbolic:
+            ctx.claim("second-load-lives-under-the-second-home", True)      # model-only family (needs a controllable environment)
+            return
+        env = make_env(ctx)
+        remA, remB = register(env, "dsA"), register(env, "dsB")
+        with env.installed() as base:
+            if first == "unset":
+                env.env_set = False
+            else:
+                env.data_home = "/HOME-A"
+            h1 = base.get_data_home()
+            st, _ = call(base, remA, "cache-A", "fam")
+            ctx.claim("first-load-succeeds", st == "ok")
+            before = set(env.files) | set(env.dirs)
+            env.env_set, env.data_home = True, "/HOME-B"
+            env.restart()
+            h2 = base.get_data_home()
+            st, res = call(base, remB, "cache-B", "fam")
+            new = (set(env.files) | set(env.dirs)) - before
+            ctx.claim("get_data_home-follows-the-variable", h2 == "/HOME-B" and h1 != h2, {"h1": h1, "h2": h2})
+            ctx.claim("second-load-lives-under-the-second-home", st == "ok" and bool(new) and all(p.startswith("/HOME-B") for p in new),
+                      {"new": sorted(new)[:4]})
+
+
 class Kills(Family):
     name = "kill-at-every-step"
     doc = "one loader killed before an arbitrary (symbolic) step; then a new process loads again"
@@ -623,4 +656,4 @@ if __name__ == "__main__":
     ap = argparse.ArgumentParser()
     ap.add_argument("--tier", default="quick")
     a = ap.parse_args()
-    sys.exit(run_check("C19", "remote cache", [Faults(), Unpack(), Kills(), TwoDatasets(), Concurrent()], a.tier, META))
+    sys.exit(run_check("C19", "remote cache", [Faults(), Unpack(), DataHome(), Kills(), TwoDatasets(), Concurrent()], a.tier, META))
